@@ -811,6 +811,11 @@ def compare_native_errors(expected, got):
     return not got
 
 
+KEYWORDS = ("as", "do", "fn", "if", "in", "box", "dyn", "for", "let", "mod", "mut", "pub", "ref", "try", "use", "else", "enum", "impl", "loop", "move", "priv", "self", "true", "type",
+            "async", "await", "break", "const", "crate", "false", "final", "macro", "match", "super", "trait", "where", "while", "yield", "become", "extern", "return", "static",
+            "struct", "typeof", "unsafe", "unsized", "virtual", "abstract", "continue", "override")
+
+
 def ident_validity(st):
     """validity predicate of identifiers (used only when asking for witnesses)"""
     cs = []
@@ -821,6 +826,8 @@ def ident_validity(st):
             cs.append(z3.InRe(v, ident_re))
             cs.append(z3.Length(v) >= 2)
             cs.append(z3.Length(v) <= 12)
+            for kw in KEYWORDS:
+                cs.append(v != z3.StringVal(kw))
     return cs
 
 
@@ -916,7 +923,7 @@ def judge(ck, mode, rname, I, e, l, kind, val, native, uniq, counter, nat_every,
 QUICK_RECEIVERS = ["S1", "S2", "S3", "S4", "S5", "S6", "S7", "S8", "S8b", "S8c", "S8d", "S9", "S11", "S12", "S13", "S14"]
 # receivers whose leaf count explodes get a smaller top-level bound: name -> (K quick, K thorough)
 META_RECEIVERS = ["S1", "S2", "S9c"]
-SMALL_K = {"S9": (1, 2)}
+SMALL_K = {"S9": (1, 1)}
 
 
 def run(ck, mode):
